@@ -27,7 +27,7 @@ METHODS = ["GET", "HEAD", "POST", "CONNECT"]
 VERSIONS = ["1.0", "1.1"]
 RCONN = ["absent", "close", "keepalive"]
 STATUSES = [200, 204, 304, 404]
-KINDS = ["bytes0", "bytesN", "paySized", "payUnsized", "streamCL", "streamChunked", "streamPlain", "file"]
+KINDS = ["bytes0", "bytesN", "bytesChunked", "paySized", "payUnsized", "streamCL", "streamChunked", "streamPlain", "file"]
 COMPS = ["off", "nego", "forced"]
 HCONN = ["none", "close", "keepalive"]
 
@@ -196,7 +196,7 @@ class World:
         if kind == "bytes0":
             resp = web.Response(body=b"", **kw)
             data = b""
-        elif kind == "bytesN":
+        elif kind in ("bytesN", "bytesChunked"):
             resp = web.Response(body=data, **kw)
         elif kind == "paySized":
             resp = web.Response(body=io.BytesIO(data), **kw)
@@ -218,7 +218,7 @@ class World:
         try:
             if kind == "streamCL":
                 resp.content_length = len(data)
-            elif kind == "streamChunked":
+            elif kind in ("streamChunked", "bytesChunked"):
                 resp.enable_chunked_encoding()
             if r["comp"] == "nego":
                 resp.enable_compression()
@@ -229,6 +229,8 @@ class World:
                 resp.force_close()
             if r["hconn"] != "none":
                 resp.headers["Connection"] = "close" if r["hconn"] == "close" else "keep-alive"
+            if kind == "bytesChunked":
+                await resp.prepare(request)      # head stays buffered; write_eof() sends head + chunk + terminator at once
             if streaming:
                 await resp.prepare(request)
                 step = r.get("wstep") or max(1, len(data))
@@ -238,7 +240,7 @@ class World:
         except RuntimeError as exc:
             # the API refuses the combination (chunked encoding for HTTP/1.0) before anything is sent; the framework
             # answers 500 on the handler's behalf
-            if streaming and getattr(resp._payload_writer, "_headers_written", False):
+            if getattr(resp._payload_writer, "_headers_written", False):
                 raise
             ret["refused"] = type(exc).__name__
             ret["status"], ret["reason"], ret["headers"] = 500, "Internal Server Error", []
@@ -661,10 +663,9 @@ def variants(rec: dict, which: Any, thorough: bool) -> List[Tuple[Any, Any]]:
                     Cuts(sp.get(name, []), name) if name in sp else Whole()))
     out.append(("fixed7/1460", Fixed(7) if len(c2s) < 5000 else Fixed(1460), Fixed(1460)))
     out.append(("fixed1460/3", Fixed(1460), Fixed(3) if len(s2c) < 5000 else Fixed(1000)))
-    if thorough:
-        return [(a, b) for _, a, b in out]
-    k = which % len(out)
-    return [(out[k][1], out[k][2])]
+    # quick: one segmentation per combination, thorough: three; `which` rotates through all of them
+    cnt = 3 if thorough else 1
+    return [(out[(which * cnt + j) % len(out)][1], out[(which * cnt + j) % len(out)][2]) for j in range(min(cnt, len(out)))]
 
 
 # ------------------------------------------------------------------ judging
@@ -731,7 +732,8 @@ class Judge:
             info = v.info if isinstance(v.info, (list, tuple)) and len(v.info) == 2 else [[], []]
             for d in info[0]:
                 self.ctx.drift(str(d))
-                self.first_drift.setdefault(str(d), []).append(t["plan"])
+                if len(self.first_drift.setdefault(str(d), [])) < 20:
+                    self.first_drift[str(d)].append(t["plan"])
             failing = [(str(c), v.total) for c in info[1]]          # recorded deviations (evaluation continued)
             if v.clause:
                 failing.append((v.clause, v.pos))
@@ -742,9 +744,10 @@ class Judge:
                 sig = signature(t, clause)
                 if clause not in self.first:
                     self.first[clause] = t
-                if sig not in self.sigs:        # one replay per distinct (clause, model input)
-                    self.ctx.violation(clause, sig, {"trace": t, "failed_at": pos,
-                                                     "note": CLAUSE_NOTES.get(clause, "")}, "trace")
+                if sig not in self.sigs:        # one violation per distinct (clause, model input)
+                    keep = self.clauses[clause] <= 3 or clause not in CLAUSE_NOTES      # full trace for the first few
+                    self.ctx.violation(clause, sig, {"trace": t if keep else {"plan": t["plan"], "src": t["src"]},
+                                                     "failed_at": pos, "note": CLAUSE_NOTES.get(clause, "")}, "trace")
                 self.sigs[sig] = self.sigs.get(sig, 0) + 1
         t0 = traces[0]
         self.ctx.sample({"src": t0["src"], "plan": json.loads(t0["plan"]),
@@ -776,7 +779,8 @@ SPEC_DIR = os.path.join(os.path.dirname(os.path.dirname(os.path.abspath(__file__
 
 def as_coded() -> Dict[str, bool]:
     vals: Dict[str, bool] = {}
-    for ln in open(os.path.join(SPEC_DIR, "WireDecision_ascoded.cfg")):
+    # VERIF_C02_ASCODED: alternative constants file (used when trying the check against a patched scratch tree)
+    for ln in open(os.environ.get("VERIF_C02_ASCODED") or os.path.join(SPEC_DIR, "WireDecision_ascoded.cfg")):
         parts = ln.split("=")
         if len(parts) == 2 and parts[0].strip() in DEVIATIONS:
             vals[parts[0].strip()] = parts[1].strip() == "TRUE"
@@ -786,7 +790,7 @@ def as_coded() -> Dict[str, bool]:
     return vals
 
 
-def write_cfg(name: str, consts: Dict[str, bool], invs: List[str], spec: str = "Spec", post: bool = False) -> str:
+def write_cfg(name: str, consts: Dict[str, bool], invs: List[str], spec: str = "Spec", post: Any = False) -> str:
     d = mktemp("c02cfg")
     p = os.path.join(d, name + ".cfg")
     with open(p, "w") as f:
@@ -796,7 +800,7 @@ def write_cfg(name: str, consts: Dict[str, bool], invs: List[str], spec: str = "
         for i in invs:
             f.write(f"INVARIANT {i}\n")
         if post:
-            f.write("POSTCONDITION PrintVerdicts\n")
+            f.write(f"POSTCONDITION {post if isinstance(post, str) else 'PrintVerdicts'}\n")
         f.write("CHECK_DEADLOCK FALSE\n")
     return p
 
@@ -810,42 +814,34 @@ def describe_cex(res: Any) -> str:
 
 
 def model_runs(ctx: Ctx) -> None:
-    from concurrent.futures import ThreadPoolExecutor
-
     coded = as_coded()
     ideal = {k: True for k in DEVIATIONS}
-    res = run_tlc("WireDecision", write_cfg("ideal", ideal, INVS), workers=16, timeout=600, deadlock=False)
+    # ideal design: all invariants over the full product; the POSTCONDITION enumerates, for every deviation switched
+    # off alone, the invariants it breaks and a witness input (constant-level evaluation inside TLC)
+    res = run_tlc("WireDecision", write_cfg("ideal", ideal, INVS, post="PrintExhibits"), workers=16, timeout=900,
+                  deadlock=False)
     ctx.expect_model_ok("WireDecision[ideal: all deviation constants TRUE]", res)
     ctx.log(f"model ideal: {res.distinct} states, {res.wall_s:.1f}s, violated={res.violated}")
-    res = run_tlc("WireDecision", write_cfg("ascoded", coded, [i + "ButKnown" for i in INVS]), workers=16, timeout=600,
-                  deadlock=False)
-    ctx.expect_model_ok("WireDecision[as-coded, named deviations carved out]", res)
-    ctx.log(f"model as-coded (ButKnown): {res.distinct} states, {res.wall_s:.1f}s, violated={res.violated}")
-    # each deviation alone (everything else ideal) with the full invariants: TLC exhibits it
-    open_devs = [k for k, v in coded.items() if not v]
-
-    def one(k: str) -> tuple:
-        c = dict(ideal)
-        c[k] = False
-        return k, run_tlc("WireDecision", write_cfg("dev_" + k, c, INVS), workers=2, timeout=600, deadlock=False, heap="2g")
-    with ThreadPoolExecutor(max_workers=6) as ex:
-        results = list(ex.map(one, open_devs))
-    from engine import tlc as _t
-    exhibited = {}
-    for k, r in results:
-        _t.require_clean(r, f"WireDecision[{k}=FALSE]")
-        ctx.add_model(f"WireDecision[only {k}=FALSE, full invariants]", r, exhaustive=False)
-        exhibited[k] = r.violated
-        if r.violated in INVS:
-            clause = DEVIATIONS[k][0]
-            ctx.violation(clause, f"model: {k}=FALSE violates {r.violated} at {describe_cex(r)}",
-                          {"trace": r.trace, "constant": k, "what": DEVIATIONS[k][1]}, "model")
-        elif r.violated:
-            ctx.violation(f"model:{r.violated}", f"WireDecision[{k}=FALSE]", {"trace": r.trace}, "model")
-        else:
-            ctx.notes.append(f"deviation constant {k}=FALSE violates no invariant (vacuous constant?)")
-    ctx.extra["deviation_exhibits"] = exhibited
-    ctx.log(f"single-deviation runs: {exhibited}")
+    exhibits = {v[1]: v for v in res.printed if v and v[0] == "E"}
+    res2 = run_tlc("WireDecision", write_cfg("ascoded", coded, [i + "ButKnown" for i in INVS]), workers=16, timeout=900,
+                   deadlock=False)
+    ctx.expect_model_ok("WireDecision[as-coded, named deviations carved out]", res2)
+    ctx.log(f"model as-coded (ButKnown): {res2.distinct} states, {res2.wall_s:.1f}s, violated={res2.violated}")
+    if set(exhibits) != set(DEVIATIONS):
+        raise MachineryError(f"PrintExhibits reported {sorted(exhibits)}, expected {sorted(DEVIATIONS)}")
+    summary = {}
+    for k, v in exhibits.items():
+        broken, count, wit = sorted(v[2]), v[3], v[4]
+        summary[k] = {"breaks": broken, "inputs": count}
+        if not broken:
+            ctx.notes.append(f"deviation constant {k}=FALSE breaks no invariant (vacuous constant)")
+            continue
+        if not coded[k]:         # still present in the code as found: TLC's witness is the model-level finding
+            w = " ".join(f"{a}={wit[a]}" for a in sorted(wit)) if isinstance(wit, dict) else str(wit)
+            ctx.violation(DEVIATIONS[k][0], f"model: {k}=FALSE violates {'/'.join(broken)} on {count} inputs, e.g. {w}",
+                          {"constant": k, "breaks": broken, "inputs": count, "witness": wit, "what": DEVIATIONS[k][1]}, "model")
+    ctx.extra["deviation_exhibits"] = summary
+    ctx.log(f"deviation exhibits: { {k: v['breaks'] for k, v in summary.items()} }")
 
 
 # ------------------------------------------------------------------ check
@@ -990,22 +986,25 @@ def replay(ctx: Ctx, path: str) -> int:
     payload = json.load(open(path))
     det = payload.get("detail") or {}
     t = det.get("trace")
-    if not isinstance(t, dict) or "events" not in t:
-        print("replay: model counterexample (constant %s):" % det.get("constant"))
-        for a, st_ in (det.get("trace") or []):
-            print("  ", a, {k: st_.get(k) for k in ("inp", "out", "rcv")} if isinstance(st_, dict) else st_)
+    if not isinstance(t, dict) or "plan" not in t:
+        print("replay: model-level finding (constant %s = FALSE, everything else ideal): breaks %s on %s inputs"
+              % (det.get("constant"), det.get("breaks"), det.get("inputs")))
+        print("   witness input:", det.get("witness"))
+        print("   ", det.get("what"))
         print(f"VIOLATION property=C02 replay={path}")
         return 1
     coded = as_coded()
     cfg = write_cfg("WireDecisionTrace", coded, [], spec="TSpec", post=True)
     # 1. re-validate the recorded events; 2. re-execute the plan against the current tree and validate again
-    traces = [t]
+    traces = [t] if "events" in t else []
+    names = ["recorded"] if "events" in t else []
     try:
         pl = json.loads(t["plan"])
         loop, world = _mini_world()
         plan = world.new_plan(pl["req"], pl["resp"])
         plan["family"] = pl.get("family", "")
         traces.append(build_trace(world.run_exchange(plan, (Whole(), Whole()))))
+        names.append("re-executed (unsegmented)")
         world.close()
     except MachineryError:
         raise
@@ -1013,7 +1012,7 @@ def replay(ctx: Ctx, path: str) -> int:
         print("replay: could not re-execute the plan:", repr(exc))
     vs, _ = validate_batch("WireDecisionTrace", cfg, traces)
     rc = 0
-    for name, v, tr in zip(("recorded", "re-executed (unsegmented)"), vs, traces):
+    for name, v, tr in zip(names, vs, traces):
         info = v.info if isinstance(v.info, (list, tuple)) and len(v.info) == 2 else [[], []]
         print(f"replay {name}: ok={v.ok} clause={v.clause!r} recorded-deviations={list(info[1])} pos={v.pos}/{v.total}")
         if name == "recorded":
